@@ -90,9 +90,6 @@ ALL_M = ["C04"]
 for f in F:
     if f["rule"] in ("M2", "M3"):
         f["properties"] = sorted(set(f["properties"] + ALL_M))
-for key in ["tensor.(StdEng).MatMul@whichblas. ?%ad.RequiresIterator() ?%bd.RequiresIterator()", "tensor.(StdEng).MatVecMul@whichblas. ?%ad.RequiresIterator() ?%bd.RequiresIterator()"]:
-    finding(["C09"], "L1", key, "BLAS gateways never consult whether an operand requires an iterator: a sliced operand is multiplied from its raw window: a[0:2,0:2] . I = [0 1 2 3]",
-            "without a test of %ad.RequiresIterator(); without a test of %bd.RequiresIterator()", 15)
 for fn, k in [("argmaxDenseTensor", "ArgmaxFlat"), ("argminDenseTensor", "ArgminFlat")]:
     finding(["C08"], "L1", "tensor.(StdEng).%s@$r.E.%s( ?$t.RequiresIterator()" % (fn, k),
             "Argmax/Argmin over all axes scans the raw storage window with no layout test: wrong index for views and lazy transposes",
@@ -111,6 +108,7 @@ finding(["C16"], "L3", "tensor.Copy@copyDense(%dt, %ts) ⊨ %ts.DataOrder().HasS
 finding(["C16"], "L4", "tensor.ToMat64@mat.NewDense( ?$t.DataOrder().IsColMajor()", "ToMat64 hands column-major storage to the row-major mat.Dense", "without a test of $t.DataOrder().IsColMajor()", 18)
 
 FIXED = [
+ {"property":"C09","commit":"51ec201","rule":"L1","key":"tensor.(StdEng).checkThreeFloatComplexTensors@return  ⊨ contiguous operands; tensor.(StdEng).checkTwoFloatComplexTensors","what":"fixed: property=C09 51ec201 the BLAS gateways multiplied the raw window of a non-contiguous view: a[0:2,0:2] x I returned [0 1 2 3] (the first four window elements); the shared operand checks now refuse views with gaps (DESIGN finding 15)"},
  {"property":"C04","commit":"03c38a0","rule":"L1","key":"tensor.(*Dense).Transpose@%transposer.Transpose($r, ⊨ (!$r.old.IsZero() && !(!($r.viewOf == 0) && $r.o.IsNotContiguous()))","what":"fixed: property=C04 03c38a0 Dense.Transpose materialised the lazy transpose of a non-contiguous view in place, over the first Size() positions of the view's window: v := a(3,4)[:, 1:3]; v.T(); v.Transpose() overwrote 5 parent elements outside the view; it now refuses such a view (DESIGN finding 5)"},
  {"property":"C20","commit":"eb67722","rule":"B2","key":"tensor.(StdEng).transposeMask","what":"fixed: property=C20 eb67722 under -tags inplacetranspose transposeMask handled rank 2 only and left every other tensor's mask in place while the data moved: a masked (2,3,4) tensor after T(1,2,0); Transpose() had 10 mask bits on the wrong elements (the copying build is right) (DESIGN finding 29)"},
  {"property":"C15","commit":"eb67722","rule":"B2","key":"tensor.(StdEng).transposeMask","what":"fixed: property=C15 eb67722 same defect seen from C15: mask and data disagree after a materialised transpose of a masked tensor of rank >= 3 in the in-place build (DESIGN finding 29)"},
